@@ -1,8 +1,8 @@
 #!/verif/.venv/bin/python
 # Replay of a solver counterexample against the unmodified code (no shims).
-# property=C02 kernel=eom label=c02:inv_contiguous
+# property=C02 kernel=eom label=c02:inv_eom_boundary
 import sys
-sys.path[:0] = ["/repo/pulser-core", "/repo/pulser-simulation", "/verif"]
+sys.path[:0] = ['/repo' + "/pulser-core", '/repo' + "/pulser-simulation", "/verif"]
 from symx.replay import replay
-sys.exit(replay(check='checks.c02', kernel='eom', shape={'own': {'clock': 4, 'local': False, 'slots': [], 'mod': True, 'pj': 'derived', 'det_off': 0.0, 'eom': {'custom_buffer': False, 'blocks': [(0, None)]}}, 'op': ['add_pulse', 'no-delay', 'B'], 'maxseq': True, 'nbarriers': 1},
-                assignment={'max_sequence_duration': 109, 'own.min_duration': 53, 'own.tr': 1, 'own.eom_tr': 1, 'new.dur/k': 14, 'barrier0': 1, 'buf#1.start': 0, 'buf#1.end': 0, 'buf#2.start': 0, 'buf#2.end': 0}, label='c02:inv_contiguous'))
+sys.exit(replay(check='checks.c02', kernel='eom', shape={'own': {'clock': 1, 'local': False, 'slots': ['pulseA', 'delay'], 'mod': True, 'pj': 'derived', 'det_off': 0.0, 'eom': {'custom_buffer': False, 'blocks': [(2, None)]}}, 'op': ['disable_eom'], 'maxseq': True, 'nbarriers': 1},
+                assignment={'max_sequence_duration': 3, 'own.min_duration': 1, 'own.tr': 1, 'own.eom_tr': 1, 'own.s0.dur': 1, 'own.s1.dur': 1, 'buf#1.start': 0, 'buf#1.end': 1, 'buf#2.start': 0, 'buf#2.end': 0}, label='c02:inv_eom_boundary'))
